@@ -3,7 +3,7 @@ Line-protocol driver for the C06 models.  Parsing / printing glue only.
 
 copy <fuel> <root> <ncells> cell*        (heap model, `copyCall` under the *regenerated* resolution table)
     cell := B | N <kind> <nslots> (<name> <val>)*     kind := D | L | F | O:<class>     val := i | r<addr>
-  → ok wt=<0|1> closed=<0|1> n0=<len before> n1=<len after> entry*
+  → ok wt=<0|1> closed=<0|1> ord=<0|1> n0=<len before> n1=<len after> entry*
     entry := <path>=new:<lim> | <path>=old<addr>:<lim>      lim := F(ull) | S(hallow) | X (shared by design)
       one entry per cell reachable from the copy (old cells and by-design-shared ones are not entered)
   | err attr|fuel|unknown
@@ -16,6 +16,7 @@ lm <nops> op*                            (landmark-manager state machine)
 -/
 import MenpoModel.Core.Codec
 import MenpoModel.Core.C06Heap
+import MenpoModel.Lemmas.C06Total
 import MenpoModel.Core.C06Landmarks
 import MenpoModel.Generated.C06AttrKinds
 
@@ -90,6 +91,7 @@ def stepCopy (rest : List String) : String :=
     | .ok (h', v') =>
       let entries := dump res h.length (h'.length + 1) h' .full "." v'
       s!"ok wt={b01 (wtHeap Generated.attrKinds Generated.copySupplier h)} closed={b01 (closedB h)} " ++
+        s!"ord={b01 (orderedB h)} " ++
         s!"n0={h.length} n1={h'.length} " ++ " ".intercalate entries
 
 /-! ### landmark-manager part -/
